@@ -65,7 +65,11 @@ def drive(mod, fn, args, script, gen_script=None):
                     break
             return None
         out = outcome_of(run)
-    return {"outcome": out, "log": [list(map(plain, e)) for e in mod.LOG], "obj": plain(mod.O.state()),
+    # UnboundLocalError is a NameError (see outcome_of): the class name reaches the log through the
+    # context-manager helper's exit entry or as an argument of a logged helper
+    import json as _json
+    log = _json.loads(_json.dumps([list(map(plain, e)) for e in mod.LOG]).replace('"UnboundLocalError"', '"NameError"'))
+    return {"outcome": out, "log": log, "obj": plain(mod.O.state()),
             "globs": [mod.GLOB1, mod.GLOB2], "yields": yields}
 
 
